@@ -2,6 +2,7 @@
  * EXPECT-FAIL: OUT4 ensure
  * EXPECT-FAIL: OUT4 cJSON_PrintPreallocated
  * EXPECT-FAIL: OUT2 print_value
+ * EXPECT-FAIL: PRT1 print_value
  * EXPECT-FAIL: OUT3 print_array
  * EXPECT-FAIL: OUT8 print_array
  * EXPECT-FAIL: OUT2 print_array
@@ -124,10 +125,14 @@ static cJSON_bool print_string_ptr(const unsigned char * const input, printbuffe
 }
 static cJSON_bool print_array(const cJSON * const item, printbuffer * const output_buffer);
 /* OUT2: "false" needs 6 bytes */
+typedef struct { size_t depth; } parse_buffer_stub;
+static int parse_array(parse_buffer_stub * const b) { if (b->depth >= CJSON_NESTING_LIMIT) { return 0; } b->depth++; return 1; }
 static cJSON_bool print_value(const cJSON * const item, printbuffer * const output_buffer)
 {
     unsigned char *output = NULL;
     if ((item == NULL) || (output_buffer == NULL)) { return false; }
+    /* PRT1: refuses scalars inside the deepest containers the parser accepts */
+    if (output_buffer->depth >= CJSON_NESTING_LIMIT) { return false; }
     switch ((item->type) & 0xFF)
     {
         case cJSON_False:
